@@ -16,7 +16,7 @@ PROPERTY = "C11"
 LEVEL = "exploration"
 META = {
     "text": "Every network reachable from the radial line net R3 and the transformer net T3 (vector groups Dyn, YNyn, Yzn; zero-sequence data on ext_grid, lines, transformer) by <=2 deviations from a menu of symmetric wye/delta loads and sgens, switching/parallel/sn_mva/second-ext_grid edits and asymmetric loads/sgens with phase powers from {0, 0.1, 0.3} is solved by the real runpp_3ph. Symmetric networks are compared with runpp (phase voltage magnitudes, angles 0/-120/+120, one third of every bus/branch/ext_grid power); for unbalanced networks the phase powers of every element are summed against its total and per-phase nodal balance is evaluated from the res_*_3ph tables. Exhaustive within that bound, no sampling.",
-    "note": "Trusted: the per-phase bookkeeping in mc/f_3ph.py (sign conventions of the res_*_3ph tables) and runpp as reference for symmetric nets (same trafo_model 't', voltage angles on, constant-power loads). Only element kinds runpp_3ph documents as supported are in the alphabet; configurations it refuses or does not converge on are counted as outcomes. In unbalanced networks the per-phase balance at nodes with a delta-connected element is judged on the phase sum only (its tables report line-to-line branch powers, a symmetric delta load is booked with total/3 per phase).",
+    "note": "Trusted: the per-phase bookkeeping in mc/f_3ph.py (sign conventions of the res_*_3ph tables) and runpp as reference for symmetric nets (same trafo_model 't', voltage angles on, constant-power loads). Only element kinds runpp_3ph documents as supported are in the alphabet; configurations it refuses or does not converge on are counted as outcomes. Delta-connected elements report line-to-line branch powers; for the per-phase nodal balance they are converted to phase-to-earth powers at the reported bus voltages.",
     "technique": "bounded exhaustive input enumeration (deviation-bounded k<=2) on the real runpp_3ph with a differential oracle against runpp and a per-phase nodal-balance invariant",
     "design_ref": "DESIGN.md §3 E1, §4 C11",
 }
@@ -183,12 +183,9 @@ def judge_phases(net3, toks0, sym):
         toks = toks0 + ["kind=" + k for k in sorted(a["kinds"])]
         o = oth.get(buses[0])
         if o is not None and any(abs(x) > PTOL for x in o):
-            if a["delta"] and not sym:
-                if abs(sum(mis) - sum(o)) <= _ptol(scale):
-                    toks = toks + ["explained=ext_grid_reports_bus_injection"]
-            elif all(abs(mis[k] - o[k]) <= _ptol(scale) for k in range(3)):
+            if all(abs(mis[k] - o[k]) <= _ptol(scale) for k in range(3)):
                 toks = toks + ["explained=ext_grid_reports_bus_injection"]
-        if a["delta"] and not sym:
+        if False:   # (delta elements are converted to phase-to-earth powers in f_3ph.phase_sums: judged per phase like all others)
             tot = sum(mis)
             if abs(tot.real) > _ptol(scale) or abs(tot.imag) > _ptol(scale):
                 vs.append(core.violation("nodal_balance_phase_sum", {"node_buses": buses, "mismatch_sum": [tot.real, tot.imag]},
